@@ -40,3 +40,6 @@ Qed.
 
 Lemma slice_full (l : bytes) : slice l 0 (zlen l) = l.
 Proof. unfold slice, zlen. rewrite Z.sub_0_r, Nat2Z.id. cbn [Z.to_nat skipn]. apply firstn_all. Qed.
+
+Lemma slice_0 (buf : bytes) n : slice buf 0 n = firstn (Z.to_nat n) buf.
+Proof. unfold slice. rewrite Z.sub_0_r. reflexivity. Qed.
